@@ -8,7 +8,7 @@ use crate::model::{F, MV};
 use proptest::prelude::*;
 use serde::{Deserialize, Serialize};
 
-pub const RULE: &str = "(list of length 0..10, and of length 60..200, callee) pairs: the callee is drawn from a table of lambdas of arity 1, 2, optional-index and rest shape, closures, self-recursive (fact, fib) and mutually recursive late-bound (is_even / is_odd) named functions, predicates that fail on some element, non-boolean predicates, anonymous lambdas, and built-ins of every arity class (exactly one, one-or-two, at-least-one, exactly two); both equivalent forms are evaluated in one environment and must give the same value or both fail; reduce is compared with a left fold the harness assembles from single applications; recording callbacks expose the (element, index) protocol; the same recursion written with `n - 1 into f` and with `f(n - 1)` is compared at depths 0..990; functions that refer to each other and are local to a do-block / function body are used through every form. Non-trivial = non-empty list and a callee that is named-recursive, of arity != 1, or a built-in; distinct by (list, callee).";
+pub const RULE: &str = "(list of length 0..10, and of length 60..200, callee) pairs: the callee is drawn from a table of lambdas of arity 1, 2, optional-index, rest and optional-plus-rest shape, closures, self-recursive (fact, fib) and mutually recursive late-bound (is_even / is_odd) named functions, predicates that fail on some element, non-boolean predicates, anonymous lambdas, and built-ins of every arity class (exactly one, one-or-two, at-least-one, exactly two); both equivalent forms are evaluated in one environment and must give the same value or both fail; reduce is compared with a left fold the harness assembles from single applications; recording callbacks expose the (element, index) protocol; the same recursion written with `n - 1 into f` and with `f(n - 1)` is compared at depths 0..990; functions that refer to each other and are local to a do-block / function body are used through every form. Non-trivial = non-empty list and a callee that is named-recursive, of arity != 1, or a built-in; distinct by (list, callee).";
 pub const ASSUMPTIONS: &[&str] = &[
     "failure is compared by status (both forms fail / both succeed with equal values), not by message",
     "every/some are compared with the conjunction / disjunction only when the predicate succeeds with a boolean on every element",
@@ -18,6 +18,12 @@ const PRELUDE: &str = r#"inc = x => x + 1
 addi = (x, i) => x * 10 + i
 opt = (x, i?) => [x, i]
 rest = (...a) => a
+optrest = (x?, ...r) => [x, r]
+optrest2 = (x, i?, ...r) => [x, i, r]
+optrest3 = (x?, i?, j?, ...r) => [x, i, j, r]
+restpred = (x?, ...r) => r[0] != 1
+accoptrest = (a, x?, ...r) => [a, x, r]
+accoptrest2 = (a?, x?, i?, ...r) => [x, i, r]
 one = (x) => [x]
 k = 10
 clos = x => x + k
@@ -57,6 +63,11 @@ const CALLEES: &[(&str, usize, Option<usize>, Kind, &str)] = &[
     ("addi", 2, Some(2), Kind::Unary, "arity2"),
     ("opt", 1, Some(2), Kind::Unary, "optional"),
     ("rest", 0, None, Kind::Unary, "rest"),
+    ("optrest", 0, None, Kind::Unary, "optional+rest"),
+    ("optrest2", 1, None, Kind::Unary, "optional+rest"),
+    ("optrest3", 0, None, Kind::Unary, "optional+rest"),
+    ("restpred", 0, None, Kind::Pred, "optional+rest"),
+    ("((x?, ...r) => r)", 0, None, Kind::Unary, "optional+rest"),
     ("one", 1, Some(1), Kind::Unary, "lambda"),
     ("clos", 1, Some(1), Kind::Unary, "closure"),
     ("add5", 1, Some(1), Kind::Unary, "closure"),
@@ -96,6 +107,8 @@ const CALLEES: &[(&str, usize, Option<usize>, Kind, &str)] = &[
     ("acc2", 2, Some(2), Kind::Acc, "lambda"),
     ("acc3", 3, Some(3), Kind::Acc, "arity3"),
     ("accrest", 0, None, Kind::Acc, "rest"),
+    ("accoptrest", 1, None, Kind::Acc, "optional+rest"),
+    ("accoptrest2", 0, None, Kind::Acc, "optional+rest"),
     ("accfact", 2, Some(2), Kind::Acc, "calls-named-recursive"),
     ("max", 1, None, Kind::Acc, "builtin-atleast1"),
     ("concat", 2, None, Kind::Acc, "builtin-atleast2"),
